@@ -23,17 +23,8 @@ RELS = ["src/pest/exceptions.py", "src/pest/state.py", "src/pest/stack.py", "src
 TEXTS = ["", "a", "ab\ncd", "ab\n", "éK\nß", "\n\n"]
 
 
-def _chain() -> object:
-    """itertools.chain, as a callable with from_iterable."""
-    def chain(*its: object) -> list:
-        return [x for it in its for x in it]  # type: ignore[union-attr]
-
-    chain.from_iterable = lambda its: [x for it in its for x in it]  # type: ignore[attr-defined]
-    return chain
-
-
 def program(repo: Repo, where: str) -> ClassModel:
-    cm = ClassModel(repo, [r for r in RELS if r in repo.py_files], where, {"Generic": None, "chain": _chain()}, max_steps=200000)
+    cm = ClassModel(repo, [r for r in RELS if r in repo.py_files], where, {"Generic": None}, max_steps=200000)
     for need in ("PestParsingError", "ParserState"):
         if need not in cm.classes:
             raise AnalysisError(f"{where}: anchor vanished: class {need}")
